@@ -914,7 +914,12 @@ class PyvalColorizer:
                     self._colorize_re_tree(args, state, False, groups)
                 else:
                     self._output('[', self.RE_GROUP_TAG, state)
-                    self._colorize_re_tree(args, state, True, groups)
+                    for elt in args:
+                        if elt[0] == sre_constants.LITERAL and elt[1] == ord('-'): #type:ignore[attr-defined]
+                            # A literal hyphen must not read as a range.
+                            self._output(r'\-', self.RE_CHAR_TAG, state)
+                        else:
+                            self._colorize_re_tree((elt,), state, True, groups)
                     self._output(']', self.RE_GROUP_TAG, state)
 
             elif op == sre_constants.CATEGORY: #type:ignore[attr-defined]
